@@ -92,6 +92,7 @@ type Column struct {
 	Default    interface{}
 	Length     int
 	Scale      int
+	Unsigned   bool // integer types: 0 … 2·max+1 (BIGINT UNSIGNED: up to MaxInt64 only, the engine stores int64)
 
 	ci bool // case-insensitive comparison (information_schema identifiers)
 }
@@ -541,7 +542,14 @@ func coerce(c *Column, v interface{}) (interface{}, error) {
 			}
 			i = int64(f)
 		}
-		if r := intRanges[t]; i < r[0] || i > r[1] {
+		r := intRanges[t]
+		if c.Unsigned {
+			r = [2]int64{0, math.MaxInt64}
+			if t != TBigInt {
+				r[1] = 2*intRanges[t][1] + 1
+			}
+		}
+		if i < r[0] || i > r[1] {
 			return nil, myErr(1264, "Out of range value for column '%s'", c.Name)
 		}
 		return i, nil
